@@ -728,6 +728,11 @@ func c18Segments(c *core.Ctx) {
 		a := r.Intn(len(src) + 1)
 		b := a + r.Intn(len(src)-a+1)
 		seg := text.Segment{Start: a, Stop: b, Padding: r.Intn(4), ForceNewline: r.Intn(3) == 0}
+		if i%5 == 0 {
+			// Padding is a public field without a documented bound: the value laws hold for any padding
+			seg.Padding = r.Intn(41)
+			c.Count("segments_with_large_padding", 1)
+		}
 		fail := func(what, detail string) {
 			c.Violation(&core.Violation{Class: "segment-arithmetic", Locus: what, Input: src, Detail: fmt.Sprintf("segment %+v of %q: %s", seg, src, detail)})
 		}
@@ -737,6 +742,20 @@ func c18Segments(c *core.Ctx) {
 			}
 			if g, w := seg.Len(), b-a+seg.Padding; g != w {
 				fail("Len", fmt.Sprintf("Len = %d want %d", g, w))
+			}
+			if g, w := seg.ConcatPadding([]byte("xy")), append([]byte("xy"), bytes.Repeat([]byte(" "), seg.Padding)...); !bytes.Equal(g, w) {
+				fail("ConcatPadding", fmt.Sprintf("ConcatPadding = %q want %q", g, w))
+			}
+			// a block reader over this one segment shows the padding followed by the bytes
+			if b > a && bytes.IndexByte(src[a:b-1], '\n') < 0 {
+				one := text.NewSegments()
+				one.Append(text.Segment{Start: a, Stop: b, Padding: seg.Padding})
+				br := text.NewBlockReader(src, one)
+				line, ps := br.PeekLine()
+				w := append(bytes.Repeat([]byte(" "), seg.Padding), src[a:b]...)
+				if !bytes.Equal(line, w) || ps.Padding != seg.Padding {
+					fail("BlockReader.PeekLine", fmt.Sprintf("PeekLine = %q (segment %+v) want %q", line, ps, w))
+				}
 			}
 			// TrimRightSpace
 			e := b
